@@ -45,6 +45,46 @@ theorem run_order_generated :
 theorem run_blocks_generated :
     TTGen.C15_RunOrder.decideBlockOk = true ∧ TTGen.C15_RunOrder.acceptBlockOk = true := by decide
 
+/-- **failure_sentinels_rejected**: every constant an operator class returns to say "no proposal" (read from the
+`_step` methods' AST: `+inf` from the HMC retry loop and from both Cholesky failures of the block update) is a
+value the run loop's first test sends to the rejecting branch (read from `MCMC.run`'s AST) — so the model's
+`HR.inf`, about which `degenerate_rejects` speaks, is exactly "the operator reported failure".  If the operators
+and the run loop stop agreeing on the sentinel, this stops building. -/
+theorem failure_sentinels_rejected :
+    ∀ c ∈ TTGen.C15_RunOrder.operatorFailureReturns, ∀ s ∈ c.2, s ∈ TTGen.C15_RunOrder.loopFailureTests := by
+  have h : (TTGen.C15_RunOrder.operatorFailureReturns.all fun c =>
+      c.2.all fun s => decide (s ∈ TTGen.C15_RunOrder.loopFailureTests)) = true := by decide
+  intro c hc s hs
+  have h1 := (List.all_eq_true.mp h) c hc
+  have h2 := (List.all_eq_true.mp h1) s hs
+  exact of_decide_eq_true h2
+
+/-- no operator / adaptor / integrator constructor mutates a mutable default argument (a shared list such as
+`HMCOperator(adaptors=[])` is harmless only as long as nobody appends to it) -/
+theorem mutable_defaults_not_mutated :
+    ∀ r ∈ TTGen.C15_RunOrder.mutableDefaults, r.2.2.2 = false := by
+  have h : (TTGen.C15_RunOrder.mutableDefaults.all fun r => !r.2.2.2) = true := by decide
+  intro r hr
+  have := (List.all_eq_true.mp h) r hr
+  simpa using this
+
+/-- `tune` (and everything else in an iteration) changes only the selected operator object: every other
+operator's scale, counters, window and adaptors are what they were -/
+theorem step_touches_only_selected_operator {α : Type} [Add α] [Sub α] [Mul α] [Div α] [Neg α] [Zero α]
+    [One α] [FromNat α] [Trans α] [LT α] [DecidableLT α] (env : Env α) (half : α) (m m' : Machine α)
+    (tape tape' : Tape α) (r : Rec α) (h : mcmcStep env half m tape = some (m', tape', r))
+    (j : Nat) (hj : j ≠ r.opIdx) : m'.ops[j]? = m.ops[j]? := by
+  unfold mcmcStep at h
+  split at h
+  · exact absurd h (by simp)
+  · split at h
+    · exact absurd h (by simp)
+    · simp only [Option.some.injEq, Prod.mk.injEq] at h
+      obtain ⟨hm, _, hr⟩ := h
+      subst hm; subst hr
+      simp only at hj ⊢
+      exact List.getElem?_set_ne (Ne.symm hj)
+
 /-- the iteration number the model hands to `logger.log` and to `operator.tune` is the counter before it
 advances (what `run_order_generated` reads off the source) -/
 theorem samples_are_epoch_before {α : Type} [Add α] [Sub α] [Mul α] [Div α] [Neg α] [Zero α] [One α]
